@@ -82,6 +82,13 @@ Proof.
     rewrite Z.mod_small by lia. reflexivity.
 Qed.
 
+Lemma nth0_app_cons : forall (l t : list byte) (c : byte) (r : list byte), l = c :: r -> nth 0 (l ++ t) 0%N = c.
+Proof. intros l t c r ->. reflexivity. Qed.
+
+Lemma mbind_assoc : forall A B C (m : M A) (f : A -> M B) (g : B -> M C) st,
+  mbind (mbind m f) g st = mbind m (fun a => mbind (f a) g) st.
+Proof. intros. unfold mbind. destruct (m st) as [st1 [a| | |]]; reflexivity. Qed.
+
 Section StageA.
 Variable ag : byte -> format_options -> printf_size_mod -> M unit.
 
@@ -124,7 +131,7 @@ Proof.
     unfold width_ok in Hwok. rewrite Ew in Hwok.
     destruct (dec_digits_spec n) as [Hds [Hval [c [r [Hcr Hc48]]]]].
     mstep ltac:(apply read_app0).
-    match goal with |- context [nth 0 ?l ?z] => replace (nth 0 l z) with c by (rewrite Hcr; reflexivity) end.
+    rewrite (nth0_app_cons _ _ _ _ Hcr).
     assert (Hcd : is_digit c = true) by (rewrite Hcr in Hds; inversion Hds; assumption).
     assert (Hc42 : N.eqb c 42 = false) by (unfold is_digit in Hcd; lia).
     rewrite Hc42. subst t2.
@@ -137,13 +144,327 @@ Proof.
     apply andb_true_iff in Hfit. destruct Hfit as [Hr Hmin].
     assert (Hpop : pop_arg t_int opts (mk_ps out (mk_vs ([slot32 (a_width v)] ++ rest) pops cache na))
                    = (mk_ps out (mk_vs rest (pops ++ [ATInt]) cache na), Ok (a_width v))).
-    { unfold pop_arg. rewrite Hap. cbn [Z.eqb]. unfold pop_va. cbn [ps_vs va_rest app ps_out va_pops arg_list num_args].
+    { unfold pop_arg. rewrite Hap. rewrite Z.eqb_refl. unfold pop_va. cbn [ps_vs va_rest app ps_out va_pops arg_list num_args].
       rewrite interp_int_slot32 by assumption. reflexivity. }
     mstep ltac:(exact Hpop).
     unfold star_width. destruct (a_width v <? 0) eqn:El.
     + replace (negb (a_width v =? INT_MIN)) with true by (unfold INT_MIN; lia). cbn [massert].
-      mstep ltac:(reflexivity). mstep ltac:(reflexivity). unfold ret. reflexivity.
+      mstep ltac:(reflexivity). unfold ret. reflexivity.
     + mstep ltac:(reflexivity). unfold ret. reflexivity.
+Qed.
+
+(* precision phase: at the first char after the width *)
+Lemma prec_phase : forall d v (pre : list byte) (t3 : list byte) c3 r3 out rest pops cache na opts fuel,
+  prec_ok d = true ->
+  (match d_prec d with PStar => in_int_range (a_prec v) | _ => true end) = true ->
+  arg_pos opts = -1 ->
+  t3 = c3 :: r3 -> plain c3 ->
+  (S (S (length (prec_chars d))) < fuel)%nat ->
+  let st := mk_ps out (mk_vs ((match d_prec d with PStar => [slot32 (a_prec v)] | _ => [] end) ++ rest) pops cache na) in
+  let st' := mk_ps out (mk_vs rest (pops ++ match d_prec d with PStar => [ATInt] | _ => [] end) cache na) in
+  let s := pre ++ prec_chars d ++ t3 in
+  (c <-- read s (length pre) ;;;
+   if N.eqb c 46 then
+     _ <-- assert_nz s (length pre + 1) ;;;
+     c1 <-- read s (length pre + 1) ;;;
+     if N.eqb c1 42 then
+       _ <-- assert_nz s (length pre + 2) ;;;
+       p <-- pop_arg t_int opts ;;;
+       ret ((length pre + 2)%nat, if 0 <=? p then set_precision p opts else opts)
+     else
+       z <-- number_loop s fuel msg_precision_overflow (length pre + 1) 0 ;;;
+       ret (fst z, set_precision (snd z) opts)
+   else ret (length pre, opts)) st
+  = (st', Ok ((length pre + length (prec_chars d))%nat, prec_opts d v opts)).
+Proof.
+  intros d v pre t3 c3 r3 out rest pops cache na opts fuel Hpok Hfit Hap Ht3 Hpl Hf st st' s.
+  destruct Hpl as [[Hc0 Hc36] [Hc37 [Hc42 [Hc46 [Hnf Hcd]]]]].
+  subst s st st'. unfold prec_chars, prec_opts in *. destruct (d_prec d) as [| |n|] eqn:Ep.
+  - (* none *)
+    cbn [app length]. mstep ltac:(apply read_app0). subst t3. cbn [nth].
+    apply N.eqb_neq in Hc46. rewrite Hc46. unfold ret. rewrite app_nil_r, Nat.add_0_r. reflexivity.
+  - (* "." *)
+    cbn [app length]. mstep ltac:(apply read_app0). cbn [nth N.eqb Pos.eqb]. subst t3.
+    mstep ltac:(apply (assert_nz_app pre (46%N :: c3 :: r3) 1); [cbn; lia | cbn [nth]; assumption]).
+    mstep ltac:(apply (read_app pre (46%N :: c3 :: r3) 1); cbn; lia). cbn [nth].
+    apply N.eqb_neq in Hc42. rewrite Hc42.
+    mstep ltac:(apply (number_loop_eval' _ _ [] (pre ++ [46%N]) c3 r3);
+                [rewrite <- app_assoc; reflexivity | rewrite app_length; reflexivity
+                | constructor | assumption | assumption | lia | cbn; unfold INT_MAX; lia | cbn; lia]).
+    unfold ret. cbn [fst snd digit_value fold_left length]. rewrite app_nil_r.
+    rewrite Nat.add_0_r. reflexivity.
+  - (* literal *)
+    unfold prec_ok in Hpok. rewrite Ep in Hpok. cbn [length] in Hf.
+    destruct (dec_digits_spec n) as [Hds [Hval [c [r [Hcr Hc48]]]]].
+    assert (Hcdig : is_digit c = true) by (rewrite Hcr in Hds; inversion Hds; assumption).
+    cbn [app length]. mstep ltac:(apply read_app0). cbn [nth N.eqb Pos.eqb]. subst t3.
+    mstep ltac:(apply (assert_nz_app pre (46%N :: dec_digits n ++ c3 :: r3) 1);
+                [cbn [length]; lia | cbn [nth]; rewrite Hcr; cbn [app nth]; unfold is_digit in Hcdig; lia]).
+    mstep ltac:(apply (read_app pre (46%N :: dec_digits n ++ c3 :: r3) 1); cbn [length]; lia). cbn [nth].
+    rewrite (nth0_app_cons _ _ _ _ Hcr).
+    assert (E42 : N.eqb c 42 = false) by (unfold is_digit in Hcdig; lia). rewrite E42.
+    mstep ltac:(apply (number_loop_eval' _ _ (dec_digits n) (pre ++ [46%N]) c3 r3);
+                [rewrite <- app_assoc; reflexivity | rewrite app_length; reflexivity
+                | assumption | assumption | assumption | lia | rewrite dec_digits_value; unfold INT_MAX; lia | lia]).
+    unfold ret. cbn [fst snd]. rewrite dec_digits_value. rewrite app_nil_r.
+    rewrite <- Nat.add_assoc. reflexivity.
+  - (* ".*" *)
+    cbn [app length]. mstep ltac:(apply read_app0). cbn [nth N.eqb Pos.eqb]. subst t3.
+    mstep ltac:(apply (assert_nz_app pre (46%N :: 42%N :: c3 :: r3) 1); [cbn; lia | cbn [nth]; discriminate]).
+    mstep ltac:(apply (read_app pre (46%N :: 42%N :: c3 :: r3) 1); cbn; lia). cbn [nth N.eqb Pos.eqb].
+    mstep ltac:(apply (assert_nz_app pre (46%N :: 42%N :: c3 :: r3) 2); [cbn; lia | cbn [nth]; assumption]).
+    assert (Hpop : pop_arg t_int opts (mk_ps out (mk_vs ([slot32 (a_prec v)] ++ rest) pops cache na))
+                   = (mk_ps out (mk_vs rest (pops ++ [ATInt]) cache na), Ok (a_prec v))).
+    { unfold pop_arg. rewrite Hap. rewrite Z.eqb_refl. unfold pop_va. cbn [ps_vs va_rest app ps_out va_pops arg_list num_args].
+      rewrite interp_int_slot32 by assumption. reflexivity. }
+    mstep ltac:(exact Hpop). unfold ret. reflexivity.
+Qed.
+
+Lemma width_phase_k : forall B (K : nat * format_options -> M B) s pos d v (pre : list byte) (t2 : list byte) c2 r2 out rest pops cache na opts fuel,
+  s = pre ++ width_chars d ++ t2 -> pos = length pre ->
+  width_ok d = true ->
+  (match d_width d with WStar => in_int_range (a_width v) && negb (a_width v =? -2147483648) | _ => true end) = true ->
+  arg_pos opts = -1 ->
+  t2 = c2 :: r2 -> is_digit c2 = false -> c2 <> 42%N -> nz36 c2 ->
+  (S (length (width_chars d)) < fuel)%nat ->
+  (c <-- read s pos ;;;
+   y <-- (if N.eqb c 42 then
+            _ <-- assert_nz s (pos + 1) ;;;
+            w <-- pop_arg t_int opts ;;;
+            o <-- star_width w opts ;;;
+            ret ((pos + 1)%nat, o)
+          else
+            z <-- number_loop s fuel msg_width_overflow pos 0 ;;;
+            ret (fst z, set_width (snd z) opts)) ;;;
+   K y)
+    (mk_ps out (mk_vs ((match d_width d with WStar => [slot32 (a_width v)] | _ => [] end) ++ rest) pops cache na))
+  = K ((pos + length (width_chars d))%nat, width_opts d v opts)
+      (mk_ps out (mk_vs rest (pops ++ match d_width d with WStar => [ATInt] | _ => [] end) cache na)).
+Proof.
+  intros B K s pos d v pre t2 c2 r2 out rest pops cache na opts fuel Hs Hp Hwok Hfit Hap Ht2 Hd2 H42 Hnz Hf.
+  match goal with |- ?lhs ?st = _ =>
+    transitivity (mbind (c <-- read s pos ;;;
+       if N.eqb c 42 then
+         _ <-- assert_nz s (pos + 1) ;;;
+         w <-- pop_arg t_int opts ;;;
+         o <-- star_width w opts ;;;
+         ret ((pos + 1)%nat, o)
+       else
+         z <-- number_loop s fuel msg_width_overflow pos 0 ;;;
+         ret (fst z, set_width (snd z) opts)) K st)
+  end.
+  { symmetry. apply mbind_assoc. }
+  erewrite mbind_ok; [reflexivity|]. subst s pos. eapply width_phase; eassumption.
+Qed.
+
+Lemma prec_phase_k : forall B (K : nat * format_options -> M B) s pos d v (pre : list byte) (t3 : list byte) c3 r3 out rest pops cache na opts fuel,
+  s = pre ++ prec_chars d ++ t3 -> pos = length pre ->
+  prec_ok d = true ->
+  (match d_prec d with PStar => in_int_range (a_prec v) | _ => true end) = true ->
+  arg_pos opts = -1 ->
+  t3 = c3 :: r3 -> plain c3 ->
+  (S (S (length (prec_chars d))) < fuel)%nat ->
+  (c <-- read s pos ;;;
+   y <-- (if N.eqb c 46 then
+            _ <-- assert_nz s (pos + 1) ;;;
+            c1 <-- read s (pos + 1) ;;;
+            if N.eqb c1 42 then
+              _ <-- assert_nz s (pos + 2) ;;;
+              p <-- pop_arg t_int opts ;;;
+              ret ((pos + 2)%nat, if 0 <=? p then set_precision p opts else opts)
+            else
+              z <-- number_loop s fuel msg_precision_overflow (pos + 1) 0 ;;;
+              ret (fst z, set_precision (snd z) opts)
+          else ret (pos, opts)) ;;;
+   K y)
+    (mk_ps out (mk_vs ((match d_prec d with PStar => [slot32 (a_prec v)] | _ => [] end) ++ rest) pops cache na))
+  = K ((pos + length (prec_chars d))%nat, prec_opts d v opts)
+      (mk_ps out (mk_vs rest (pops ++ match d_prec d with PStar => [ATInt] | _ => [] end) cache na)).
+Proof.
+  intros B K s pos d v pre t3 c3 r3 out rest pops cache na opts fuel Hs Hp Hpok Hfit Hap Ht3 Hpl Hf.
+  match goal with |- ?lhs ?st = _ =>
+    transitivity (mbind (c <-- read s pos ;;;
+       if N.eqb c 46 then
+         _ <-- assert_nz s (pos + 1) ;;;
+         c1 <-- read s (pos + 1) ;;;
+         if N.eqb c1 42 then
+           _ <-- assert_nz s (pos + 2) ;;;
+           p <-- pop_arg t_int opts ;;;
+           ret ((pos + 2)%nat, if 0 <=? p then set_precision p opts else opts)
+         else
+           z <-- number_loop s fuel msg_precision_overflow (pos + 1) 0 ;;;
+           ret (fst z, set_precision (snd z) opts)
+       else ret (pos, opts)) K st)
+  end.
+  { symmetry. apply mbind_assoc. }
+  erewrite mbind_ok; [reflexivity|]. subst s pos. eapply prec_phase; eassumption.
+Qed.
+
+Lemma parse_size_mod_eval' : forall s pos (l : lenmod) (pre : list byte) (cv : byte) st,
+  s = pre ++ len_chars l ++ [cv] -> pos = length pre -> is_conv_char cv ->
+  parse_size_mod s pos st = (st, Ok ((pos + length (len_chars l))%nat, szmod_of l)).
+Proof. intros; subst s pos; apply parse_size_mod_eval; assumption. Qed.
+
+(* arg_pos is not touched by flags, width, precision *)
+Lemma apply_flags_arg_pos : forall fl o, arg_pos (apply_flags fl o) = arg_pos o.
+Proof.
+  induction fl as [|f fl IH]; intros o; [reflexivity|]. cbn [apply_flags fold_left].
+  fold (apply_flags fl (apply_flag f o)). rewrite IH. destruct o, f; reflexivity.
+Qed.
+Lemma width_opts_arg_pos : forall d v o, arg_pos (width_opts d v o) = arg_pos o.
+Proof. intros d v o. unfold width_opts. destruct (d_width d); [| |destruct (a_width v <? 0)]; destruct o; reflexivity. Qed.
+Lemma prec_opts_arg_pos : forall d v o, arg_pos (prec_opts d v o) = arg_pos o.
+Proof. intros d v o. unfold prec_opts. destruct (d_prec d); [| | |destruct (0 <=? a_prec v)]; destruct o; reflexivity. Qed.
+
+Definition opts_of (d : directive) (v : argval) : format_options :=
+  prec_opts d v (width_opts d v (apply_flags (d_flags d) (set_dollar false default_options))).
+
+(* the head of W ++ P ++ T3 *)
+Lemma dec_digits_nz36 : forall n, Forall nz36 (dec_digits n).
+Proof.
+  intros n. destruct (dec_digits_spec n) as [H _]. eapply Forall_impl; [|exact H].
+  intros a Ha. apply digit_nz36. exact Ha.
+Qed.
+Lemma prec_chars_nz36 : forall d, Forall nz36 (prec_chars d).
+Proof.
+  intros d. unfold prec_chars. destruct (d_prec d); repeat constructor; try (unfold nz36; lia).
+  apply dec_digits_nz36.
+Qed.
+
+Lemma prec_tail_cons : forall d, d_conv d <> Cpct ->
+  exists c r, prec_chars d ++ tail3 d = c :: r /\ is_digit c = false /\ c <> 42%N /\ c <> 37%N /\ nz36 c
+              /\ not_flag c /\ Forall nz36 r.
+Proof.
+  intros d Hc. destruct (tail3_cons d Hc) as [c3 [r3 [H3 [Hp Hr]]]].
+  pose proof (prec_chars_nz36 d) as Hpn.
+  unfold prec_chars in *. destruct (d_prec d) eqn:Ep; cbn [app]; rewrite H3.
+  - exists c3, r3. destruct Hp as [Hn [H37 [H42 [H46 [Hnf Hd]]]]].
+    split; [reflexivity|]. split; [assumption|]. split; [assumption|]. split; [assumption|]. split; [assumption|]. split; assumption.
+  - exists 46%N, (c3 :: r3). repeat split; try discriminate; try (unfold not_flag; repeat split; discriminate).
+    constructor; [apply Hp | assumption].
+  - exists 46%N, (dec_digits n ++ c3 :: r3). repeat split; try discriminate; try (unfold not_flag; repeat split; discriminate).
+    apply Forall_app. split; [apply dec_digits_nz36|]. constructor; [apply Hp | assumption].
+  - exists 46%N, (42%N :: c3 :: r3). repeat split; try discriminate; try (unfold not_flag; repeat split; discriminate).
+    constructor; [unfold nz36; lia|]. constructor; [apply Hp | assumption].
+Qed.
+
+Lemma width_tail_cons : forall d, d_conv d <> Cpct -> width_ok d = true ->
+  exists c r, width_chars d ++ prec_chars d ++ tail3 d = c :: r /\ not_flag c /\ c <> 0%N /\ c <> 36%N /\ c <> 37%N
+              /\ (is_digit c = true -> nth 0 r 0%N <> 36%N).
+Proof.
+  intros d Hc Hw. destruct (prec_tail_cons d Hc) as [c2 [r2 [H2 [Hd2 [H42 [H37 [Hnz [Hnf Hr]]]]]]]].
+  unfold width_chars, width_ok in *. destruct (d_width d) eqn:Ew; cbn [app]; rewrite H2.
+  - exists c2, r2. split; [reflexivity|]. split; [assumption|]. split; [apply Hnz|]. split; [apply Hnz|]. split; [assumption|].
+    intros Hd. congruence.
+  - destruct (dec_digits_spec n) as [Hds [_ [c [r [Hcr Hc48]]]]]. rewrite Hcr. cbn [app].
+    assert (Hcd : is_digit c = true) by (rewrite Hcr in Hds; inversion Hds; assumption).
+    assert (Hn0 : n <> 0%N) by lia. specialize (Hc48 Hn0).
+    exists c, (r ++ c2 :: r2). split; [reflexivity|].
+    unfold is_digit in Hcd. unfold not_flag. repeat split; try lia.
+    intros _. apply nth0_nz36. apply Forall_app. split.
+    + pose proof (dec_digits_nz36 n) as Hall. rewrite Hcr in Hall. inversion Hall; assumption.
+    + constructor; assumption.
+  - exists 42%N, (c2 :: r2). unfold not_flag. repeat split; try discriminate.
+Qed.
+
+Lemma render_shape : forall d, d_pos d = None -> d_conv d <> Cpct ->
+  render d = [37%N] ++ map flag_char (d_flags d) ++ width_chars d ++ prec_chars d ++ tail3 d.
+Proof.
+  intros d Hp Hc. unfold render, width_chars, prec_chars, tail3. rewrite Hp.
+  destruct (d_conv d); try congruence; cbn [app]; reflexivity.
+Qed.
+
+(* the agent is called once, with the options the directive denotes *)
+Theorem parse_directive_render : forall d v out rest pops cache na st2,
+  d_pos d = None -> d_conv d <> Cpct -> width_ok d = true -> prec_ok d = true ->
+  (match d_width d with WStar => in_int_range (a_width v) && negb (a_width v =? -2147483648) | _ => true end) = true ->
+  (match d_prec d with PStar => in_int_range (a_prec v) | _ => true end) = true ->
+  ag (conv_char (d_conv d)) (opts_of d v) (szmod_of (d_len d))
+     (mk_ps out (mk_vs rest (pops ++ star_pops d) cache na)) = (st2, Ok tt) ->
+  parse_directive (render d) ag 1 false (mk_ps out (mk_vs (star_slots d v ++ rest) pops cache na))
+  = (st2, Ok (length (render d), false)).
+Proof.
+  intros d v out rest pops cache na st2 Hpos Hconv Hwok Hpok Hwfit Hpfit Hag.
+  pose proof (render_shape d Hpos Hconv) as Hs.
+  destruct (width_tail_cons d Hconv Hwok) as [c1 [r1 [H1 [Hnf1 [Hc10 [Hc136 [Hc137 Hd1]]]]]]].
+  destruct (prec_tail_cons d Hconv) as [c2 [r2 [H2 [Hd2 [H242 [H237 [Hnz2 [Hnf2 Hr2]]]]]]]].
+  destruct (tail3_cons d Hconv) as [c3 [r3 [H3 [Hpl3 Hr3]]]].
+  remember (render d) as s eqn:Es. clear Es.
+  set (F := map flag_char (d_flags d)) in *.
+  assert (HF : length F = length (d_flags d)) by (subst F; apply map_length).
+  assert (Hlen : length s = (1 + length F + length (width_chars d) + length (prec_chars d) + length (tail3 d))%nat).
+  { rewrite Hs. rewrite !app_length. cbn [length]. lia. }
+  assert (Hl3 : length (tail3 d) = (length (len_chars (d_len d)) + 1)%nat) by (unfold tail3; rewrite app_length; reflexivity).
+  unfold parse_directive.
+  mstep ltac:(apply (flags_loop_eval' s 1%nat (d_flags d) [37%N] c1 r1);
+              [rewrite Hs; fold F; rewrite H1; reflexivity | reflexivity | assumption | assumption | assumption | assumption | lia]).
+  cbv beta iota.
+  set (o1 := apply_flags (d_flags d) (set_dollar false default_options)).
+  assert (Ho1 : arg_pos o1 = -1) by (subst o1; rewrite apply_flags_arg_pos; reflexivity).
+  unfold star_slots. rewrite <- app_assoc.
+  rewrite (width_phase_k _ _ s _ d v ([37%N] ++ F) (prec_chars d ++ tail3 d) c2 r2);
+    [ | rewrite Hs; rewrite <- app_assoc; reflexivity
+      | rewrite app_length; rewrite HF; reflexivity
+      | assumption | assumption | assumption | assumption | assumption | assumption | assumption | lia].
+  cbv beta iota.
+  set (o2 := width_opts d v o1).
+  assert (Ho2 : arg_pos o2 = -1) by (subst o2; rewrite width_opts_arg_pos; assumption).
+  rewrite (prec_phase_k _ _ s _ d v (([37%N] ++ F) ++ width_chars d) (tail3 d) c3 r3);
+    [ | rewrite Hs; rewrite <- !app_assoc; reflexivity
+      | rewrite !app_length; rewrite HF; cbn [length]; lia
+      | assumption | assumption | assumption | assumption | assumption | lia].
+  cbv beta iota.
+  mstep ltac:(apply (parse_size_mod_eval' s _ (d_len d) ((([37%N] ++ F) ++ width_chars d) ++ prec_chars d) (conv_char (d_conv d)));
+              [rewrite Hs; unfold tail3; rewrite <- !app_assoc; reflexivity
+              | rewrite !app_length; rewrite HF; cbn [length]; lia
+              | apply conv_char_is; assumption]).
+  cbv beta iota.
+  (* the conversion character *)
+  assert (Hrd : forall st, read s (1 + length (d_flags d) + length (width_chars d) + length (prec_chars d) + length (len_chars (d_len d))) st
+                           = (st, Ok (conv_char (d_conv d)))).
+  { intros st. rewrite Hs. unfold tail3.
+    replace ([37%N] ++ F ++ width_chars d ++ prec_chars d ++ len_chars (d_len d) ++ [conv_char (d_conv d)])
+      with (([37%N] ++ F ++ width_chars d ++ prec_chars d ++ len_chars (d_len d)) ++ [conv_char (d_conv d)])
+      by (rewrite <- !app_assoc; reflexivity).
+    replace (1 + length (d_flags d) + length (width_chars d) + length (prec_chars d) + length (len_chars (d_len d)))%nat
+      with (length ([37%N] ++ F ++ width_chars d ++ prec_chars d ++ len_chars (d_len d)))
+      by (rewrite !app_length; rewrite HF; cbn [length]; lia).
+    apply read_app0. }
+  mstep ltac:(apply Hrd).
+  rewrite <- app_assoc. fold (star_pops d).
+  mstep ltac:(exact Hag).
+  unfold ret. f_equal. f_equal. f_equal. lia.
+Qed.
+
+Lemma render_head : forall d, d_pos d = None -> d_conv d <> Cpct -> width_ok d = true ->
+  exists c r, render d = 37%N :: c :: r /\ c <> 0%N /\ c <> 37%N.
+Proof.
+  intros d Hpos Hconv Hwok. rewrite (render_shape d Hpos Hconv).
+  destruct (width_tail_cons d Hconv Hwok) as [c1 [r1 [H1 [Hnf1 [Hc10 [Hc136 [Hc137 Hd1]]]]]]].
+  destruct (d_flags d) as [|f fl]; cbn [map app].
+  - rewrite H1. eexists; eexists; split; [reflexivity | split; assumption].
+  - eexists; eexists; split; [reflexivity|]. destruct f; cbn; split; discriminate.
+Qed.
+
+Theorem format_render : forall d v out rest pops cache na st2,
+  d_pos d = None -> d_conv d <> Cpct -> width_ok d = true -> prec_ok d = true ->
+  (match d_width d with WStar => in_int_range (a_width v) && negb (a_width v =? -2147483648) | _ => true end) = true ->
+  (match d_prec d with PStar => in_int_range (a_prec v) | _ => true end) = true ->
+  ag (conv_char (d_conv d)) (opts_of d v) (szmod_of (d_len d))
+     (mk_ps out (mk_vs rest (pops ++ star_pops d) cache na)) = (st2, Ok tt) ->
+  printf_format_with (render d) ag (mk_ps out (mk_vs (star_slots d v ++ rest) pops cache na)) = (st2, Ok tt).
+Proof.
+  intros d v out rest pops cache na st2 Hpos Hconv Hwok Hpok Hwfit Hpfit Hag.
+  pose proof (parse_directive_render d v out rest pops cache na st2 Hpos Hconv Hwok Hpok Hwfit Hpfit Hag) as Hpd.
+  destruct (render_head d Hpos Hconv Hwok) as [c [r [Hs [Hc0 Hc37]]]].
+  remember (render d) as s eqn:Es. clear Es. subst s.
+  unfold printf_format_with. cbn [length format_loop].
+  mstep ltac:(apply (read_app0 [] (37%N :: c :: r))). cbn [nth N.eqb Pos.eqb negb].
+  mstep ltac:(apply (assert_nz_app [37%N] (c :: r) 0); [cbn; lia | assumption]).
+  mstep ltac:(apply (read_app0 [37%N] (c :: r))). cbn [nth].
+  apply N.eqb_neq in Hc37. rewrite Hc37.
+  mstep ltac:(exact Hpd). cbn [fst snd format_loop].
+  mstep ltac:(apply read_end). cbn [N.eqb]. reflexivity.
 Qed.
 
 End StageA.
